@@ -20,7 +20,7 @@ EXPLANATION = (
 ASSUMPTIONS = ["thread_data::restore_state / set_state_tagged are compare-exchange based (decided in C01.R2)",
                "agent_ref::suspend/resume forward to execution_agent (virtual dispatch not followed)"]
 THOROUGH_CONFIGS = [["-UNDEBUG", "-DPIKA_DEBUG"]]
-FLOORS = {"C02.R1": 6, "C02.R2": 6, "C02.R3": 4, "C02.R4": 2, "C02.R5": 4, "C02.R6": 5, "C02.R8": 1, "C02.R9": 1}
+FLOORS = {"C02.R1": 6, "C02.R2": 6, "C02.R3": 4, "C02.R4": 2, "C02.R5": 4, "C02.R6": 5, "C02.R8": 1, "C02.R9": 1, "C02.R10": 3}
 
 TSS = "pika::threads::detail::thread_schedule_state"
 
@@ -354,3 +354,11 @@ def run(rep, tier):
                 "restore_state(new, old) expects the word exactly as the worker recorded it at activation (%s), but %s rewrites the state_ex part of the active task's word afterwards "
                 "(set_state_ex): whenever the task was resumed with a restart state other than 'signaled' (interrupt, abort) the compare-exchange fails, the scheduling loop drops the task with "
                 "its word stuck at 'active', and the next wake-up aimed at it is never delivered" % (T(cas[0]["args"][0]), ", ".join(sorted(f.qname.rsplit("::", 2)[-2] + "::call" for f in callers))))
+
+    # ---- R10 = C01.R14 / R17 / R18: the retry helper is a staged task
+    from .common import import_rules
+    import_rules(rep, tier, "C01", ("C01.R14", "C01.R17", "C01.R18"), "C02.R10",
+                 "K7/K3 (shared with C01.R14, R17, R18): a wake-up that finds its target still active is handed to a helper task created with create_work - a *staged* task "
+                 "description. The wake-up is delivered only if that description is converted and run: the owner converts staged tasks also when its thread map is at the cap "
+                 "and nothing is pending (all its tasks are blocked - exactly the situation in which the helper is the only thing that can unblock them), also while its "
+                 "pending list is busy, and a popped description is always turned into a queued thread")
